@@ -20,6 +20,35 @@ open SquidModel.Cache SquidModel.Cache.Restart
 
 /-! ### ufs family -/
 
+/-- Main theorem (ufs, aufs, diskd), `_partial` because of the hypothesis `hrace`.
+For EVERY history of completed stores, purges/invalidations, hits, unlinkd activity and any number of clean restarts (each with an
+arbitrary `readdir` order), starting from a freshly created cache_dir: if no cache file was created under a number whose previous
+file was still waiting to be unlinked (`raced = false`) and file numbers stayed within the 24 bits of a swap.state record, then every
+URL is served exactly what the history requires: the last completely stored response, or nothing after a purge.  In particular every
+completed entry survives every restart with identical bytes, and nothing purged comes back. -/
+theorem ufs_history_preserved_partial {β : Type} (unlinkd : Bool) (ops : List (Op β)) (dl : List Nat)
+    (hwf : ∀ op ∈ ops, op.Wf)
+    (hrace : (run (rebuild (Ufs.empty unlinkd) dl) ops).raced = false)
+    (hsmall : (run (rebuild (Ufs.empty unlinkd) dl) ops).overflow = false) (k : Key) :
+    serve (run (rebuild (Ufs.empty unlinkd) dl) ops) k = spec ops k :=
+  history_preserved unlinkd ops dl hwf hrace hsmall k
+
+/-- With synchronous unlinks (`unlinkdUseful()` false) the race cannot happen: the statement holds without `hrace`. -/
+theorem ufs_history_preserved_sync_unlink {β : Type} (ops : List (Op β)) (dl : List Nat)
+    (hwf : ∀ op ∈ ops, op.Wf)
+    (hsmall : (run (rebuild (Ufs.empty false) dl) ops).overflow = false) (k : Key) :
+    serve (run (rebuild (Ufs.empty false) dl) ops) k = spec ops k :=
+  history_preserved false ops dl hwf (never_raced_sync ops dl) hsmall k
+
+/-- A clean restart is the identity on what is served, and restarting twice is the same as restarting once. -/
+theorem clean_image_rebuild_restores_all {β : Type} (unlinkd : Bool) (ops : List (Op β)) (dl dl1 dl2 : List Nat)
+    (hwf : ∀ op ∈ ops, op.Wf)
+    (hrace : (run (rebuild (Ufs.empty unlinkd) dl) ops).raced = false)
+    (hsmall : (run (rebuild (Ufs.empty unlinkd) dl) ops).overflow = false) (k : Key) :
+    serve (run (rebuild (Ufs.empty unlinkd) dl) (ops ++ [.restart dl1])) k = serve (run (rebuild (Ufs.empty unlinkd) dl) ops) k ∧
+    serve (run (rebuild (Ufs.empty unlinkd) dl) (ops ++ [.restart dl1, .restart dl2])) k = serve (run (rebuild (Ufs.empty unlinkd) dl) ops) k :=
+  restart_identity unlinkd ops dl dl1 dl2 hwf hrace hsmall k
+
 def tm : Times := { timestamp := 10, lastref := 10, expires := 20, lastmod := 5 }
 
 /-- store v1, clean restart (`suggest` is 0 again), reload v2: the released number 0 is the first free one; unlinkd runs late -/
